@@ -125,6 +125,16 @@ type OrderedI interface {
 
 type F32 float32
 
+type TP[V any] struct {
+	K string `k:"key"`
+	V V
+}
+
+type SArg = struct {
+	A int
+	b Tagged
+}
+
 type Getter interface{ Get() int }
 type I8 int8
 
